@@ -20,22 +20,22 @@ import (
 // ---- per-package layout round trips (each runs in its own process under ./check) ------------------
 
 func TestPropLayoutEbpf(t *testing.T) {
-	vstat.Checks(1500, 30000)
+	vstat.Checks(4000, 60000)
 	rapid.Check(t, layoutProperty(t, "ebpf"))
 }
 
 func TestPropLayoutNat(t *testing.T) {
-	vstat.Checks(1800, 36000)
+	vstat.Checks(5000, 75000)
 	rapid.Check(t, layoutProperty(t, "nat"))
 }
 
 func TestPropLayoutQos(t *testing.T) {
-	vstat.Checks(600, 12000)
+	vstat.Checks(2000, 30000)
 	rapid.Check(t, layoutProperty(t, "qos"))
 }
 
 func TestPropLayoutAntispoof(t *testing.T) {
-	vstat.Checks(900, 18000)
+	vstat.Checks(2500, 40000)
 	rapid.Check(t, layoutProperty(t, "antispoof"))
 }
 
